@@ -943,6 +943,7 @@ impl StunClient {
                             transaction_id, event
                         );
                         events.push(event);
+                        self.transactions.remove(&transaction_id);
                     }
                 }
             } else {
